@@ -446,3 +446,124 @@ Example value_optional_accepts_truncated :
   (length cut < length full)%nat /\ t_stat (tup_decode_b18cffe cut) = TSOk /\ t_ins (tup_decode_b18cffe cut) = [] /\
   t_stat (tup_decode cut) = TSErr.
 Proof. vm_compute. repeat split; lia. Qed.
+
+(* ================= every proper prefix of an encoding is rejected (C06) ================= *)
+Definition pprefix (p l : list N) : Prop := exists s, s <> [] /\ l = p ++ s.
+
+Lemma pprefix_app a : forall b p, pprefix p (a ++ b) -> pprefix p a \/ (exists q, p = a ++ q /\ pprefix q b).
+Proof.
+  induction a as [|x a IH]; intros b p [s [Hs E]].
+  - right. exists p. split; [reflexivity|]. exists s. split; assumption.
+  - destruct p as [|y p].
+    + left. exists (x :: a). split; [discriminate|reflexivity].
+    + cbn [app] in E. inversion E; subst y. destruct (IH b p) as [[s' [Hs' E']]|[q [-> Hq]]].
+      * exists s. split; assumption.
+      * left. exists s'. split; [assumption|]. cbn [app]. now rewrite E'.
+      * right. exists q. split; [reflexivity|assumption].
+Qed.
+Lemma pprefix_single x p : pprefix p [x] -> p = [].
+Proof.
+  intros [s [Hs E]]. destruct p as [|y p]; [reflexivity|]. cbn [app] in E. inversion E.
+  destruct p; [destruct s; [congruence|discriminate]|discriminate].
+Qed.
+Lemma pprefix_nil p : ~ pprefix p [].
+Proof. intros [s [Hs E]]. destruct p; destruct s; try discriminate. congruence. Qed.
+Lemma pprefix_length p l : pprefix p l -> (length p < length l)%nat.
+Proof. intros [s [Hs ->]]. rewrite app_length. destruct s; [congruence|cbn; lia]. Qed.
+
+Lemma read_count_nil : read_count [] = CErr [].
+Proof. reflexivity. Qed.
+
+(* a count field cut short *)
+Lemma read_count_prefix n p : n < 2147483648 -> pprefix p (w_len n) -> exists r, read_count p = CErr r.
+Proof.
+  intros Hn Hp. unfold w_len in Hp.
+  assert (Hcut : forall ty k body, (ty = tBYTE /\ k = 1%nat) \/ (ty = tSHORT /\ k = 2%nat) \/ (ty = tINT /\ k = 4%nat) ->
+            length body = k -> pprefix p (head ty 0 ++ body) -> exists r, read_count p = CErr r).
+  { intros ty k body Hty Hb Hpp. apply pprefix_app in Hpp. destruct Hpp as [Hpp|[q [-> Hq]]].
+    - apply pprefix_single in Hpp. subst p. eexists. reflexivity.
+    - apply pprefix_length in Hq. unfold read_count.
+      destruct Hty as [[-> ->]|[[-> ->]|[-> ->]]]; rewrite read_head_head by (first [reflexivity | lia]).
+      + destruct q; [eexists; reflexivity|cbn [length] in *; lia].
+      + change (negb (0 =? 0) || (tSHORT =? tSE)) with false. change (tSHORT =? tZERO) with false. change (tSHORT =? tBYTE) with false.
+        change (tSHORT =? tSHORT) with true. cbv iota. rewrite bread_short by lia. eexists. reflexivity.
+      + change (negb (0 =? 0) || (tINT =? tSE)) with false. change (tINT =? tZERO) with false. change (tINT =? tBYTE) with false.
+        change (tINT =? tSHORT) with false. change (tINT =? tINT) with true. cbv iota. rewrite bread_short by lia. eexists. reflexivity. }
+  destruct (n =? 0).
+  - apply pprefix_single in Hp. subst p. eexists. reflexivity.
+  - destruct (n <? 128); [apply (Hcut tBYTE 1%nat [n]); auto|].
+    destruct (n <? 32768); [apply (Hcut tSHORT 2%nat (be 2 n)); auto using be_length|].
+    apply (Hcut tINT 4%nat (be 4 n)); auto using be_length.
+Qed.
+
+Lemma take_str_short l r : N.of_nat (length r) < l -> take_str l r = None.
+Proof. intros H. unfold take_str. destruct (N.of_nat (length r) <? l) eqn:E; [reflexivity|lia]. Qed.
+
+(* a key cut short *)
+Lemma r_string_prefix k p f : len k < 4294967296 -> pprefix p (w_string k 0) -> r_string (S f) 0 true p = RErr.
+Proof.
+  intros Hk Hp. unfold len in Hk. unfold w_string in Hp. cbv zeta in Hp. unfold r_string, with_seek.
+  destruct (255 <? N.of_nat (length k)) eqn:E.
+  - apply pprefix_app in Hp. destruct Hp as [Hp|[q [-> Hq]]].
+    + apply pprefix_single in Hp. subst p. reflexivity.
+    + rewrite seek_first by reflexivity. unfold read_string_body. change (tSTR4 =? tSTR4) with true. cbv iota.
+      rewrite N.mod_small in Hq by assumption. apply pprefix_app in Hq. destruct Hq as [Hq|[k' [-> Hk']]].
+      * apply pprefix_length in Hq. rewrite be_length in Hq. now rewrite bread_short by lia.
+      * rewrite bread_be by (cbn; lia). apply pprefix_length in Hk'. now rewrite take_str_short by lia.
+  - apply pprefix_app in Hp. destruct Hp as [Hp|[q [-> Hq]]].
+    + apply pprefix_single in Hp. subst p. reflexivity.
+    + rewrite seek_first by reflexivity. unfold read_string_body. change (tSTR1 =? tSTR4) with false. change (tSTR1 =? tSTR1) with true. cbv iota.
+      apply (pprefix_app [_]) in Hq. destruct Hq as [Hq|[k' [-> Hk']]].
+      * apply pprefix_single in Hq. subst q. reflexivity.
+      * cbn [app]. apply pprefix_length in Hk'. now rewrite take_str_short by lia.
+Qed.
+
+(* an entry cut short anywhere: the iteration fails *)
+Lemma dec_entry_prefix k v p : entry_ok (k, v) -> pprefix p (enc_entry (k, v)) -> exists a, dec_entry true true p = EErr a.
+Proof.
+  intros [Hk Hv] Hp. cbn [fst snd] in Hk, Hv. unfold enc_entry in Hp. cbn [fst snd] in Hp. unfold dec_entry.
+  apply pprefix_app in Hp. destruct Hp as [Hp|[q1 [-> Hq1]]].
+  { rewrite fuel_for_S. rewrite (r_string_prefix k) by assumption. eexists. reflexivity. }
+  rewrite fuel_for_S. rewrite roundtrip_string by (unfold len in Hk; first [reflexivity | assumption]).
+  unfold dec_value. apply pprefix_app in Hq1. destruct Hq1 as [Hq1|[q2 [-> Hq2]]].
+  { apply pprefix_single in Hq1. subst q1. eexists. reflexivity. }
+  rewrite fuel_for_S. rewrite seek_first by reflexivity. change (tSIMPLE =? tSIMPLE) with true. cbv iota.
+  unfold skip_to. apply pprefix_app in Hq2. destruct Hq2 as [Hq2|[q3 [-> Hq3]]].
+  { apply pprefix_single in Hq2. subst q2. eexists. reflexivity. }
+  rewrite fuel_for_S. rewrite seek_first by reflexivity. change (tBYTE =? tBYTE) with true. cbv iota.
+  rewrite count_field in Hq3 by assumption. apply pprefix_app in Hq3. destruct Hq3 as [Hq3|[v' [-> Hv']]].
+  { destruct (read_count_prefix _ _ Hv Hq3) as [r ->]. eexists. reflexivity. }
+  rewrite <- count_field by assumption. rewrite read_count_field by assumption.
+  apply pprefix_length in Hv'. unfold read_bytes.
+  destruct ((Z.of_nat (length v) <? 0)%Z || (Z.of_nat (length v') <? Z.of_nat (length v))%Z) eqn:E; [eexists; reflexivity|lia].
+Qed.
+
+Lemma dec_loop_prefix : forall m fuel n p, Forall entry_ok m -> pprefix p (flat_map enc_entry m) ->
+  (Z.of_nat (length m) <= n)%Z -> (length p < fuel)%nat ->
+  let o := dec_loop true true fuel n p in t_stat o = TSErr /\ exists m2, m = t_ins o ++ m2.
+Proof.
+  induction m as [|[k v] m IH]; intros fuel n p Hok Hp Hn Hf.
+  - cbn in Hp. now apply pprefix_nil in Hp.
+  - destruct fuel as [|f]; [lia|]. cbn [dec_loop]. destruct (n <=? 0)%Z eqn:E; [cbn [length] in Hn; lia|].
+    inversion Hok; subst. cbn [flat_map] in Hp. apply pprefix_app in Hp. destruct Hp as [Hp|[q [-> Hq]]].
+    + destruct (dec_entry_prefix k v p H1 Hp) as [a ->]. cbn [t_stat t_ins]. split; [reflexivity|]. eexists. reflexivity.
+    + rewrite dec_entry_enc by assumption. rewrite app_length in Hf. pose proof (enc_entry_nonempty (k, v)).
+      specialize (IH f (n - 1)%Z q H2 Hq ltac:(cbn [length] in Hn; lia) ltac:(lia)). cbv zeta in IH. destruct IH as [A [m2 B]].
+      cbn [t_stat t_ins]. split; [assumption|]. exists m2. cbn [app]. now rewrite <- B.
+Qed.
+
+(* C06 for the TUP decoder: EVERY proper prefix of the encoding of EVERY attribute list is rejected with an error,
+   and the entries added before the error are a prefix of the encoded entries - nothing is made up *)
+Theorem tup_truncated_rejected m p : attrs_ok m -> pprefix p (tup_encode m) ->
+  let o := tup_decode p in t_stat o = TSErr /\ exists m2, m = t_ins o ++ m2.
+Proof.
+  intros [Hl Hok] Hp. unfold tup_encode in Hp. unfold tup_decode, tup_decode_gen.
+  apply pprefix_app in Hp. destruct Hp as [Hp|[q [-> Hq]]].
+  { apply pprefix_single in Hp. subst p. cbn. split; [reflexivity|]. exists m. reflexivity. }
+  unfold skip_to. rewrite fuel_for_S. rewrite seek_first by reflexivity. change (tMAP =? tMAP) with true. cbv iota.
+  rewrite count_field in Hq by assumption. apply pprefix_app in Hq. destruct Hq as [Hq|[q' [-> Hq']]].
+  { destruct (read_count_prefix _ _ Hl Hq) as [r ->]. cbn. split; [reflexivity|]. exists m. reflexivity. }
+  rewrite <- count_field by assumption. rewrite read_count_field by assumption.
+  apply dec_loop_prefix; try assumption; lia.
+Qed.
+Print Assumptions tup_truncated_rejected.
